@@ -86,7 +86,8 @@ impl HtxFile {
         let mut file = match params.htx_buf_size {
             FileBufSizeParam::Size(val) => {
                 let idx_buf_chunk_size = CHUNK_SIZE;
-                let idx_buf_num_chunks = val / idx_buf_chunk_size;
+                // the buffer needs two chunks at least: the pinned first one and a working one.
+                let idx_buf_num_chunks = (val / idx_buf_chunk_size).max(2);
                 VarFile::with_capacity(
                     piece_mgr,
                     "htx",
